@@ -121,7 +121,7 @@ class Node:
         if self.c == "atom":
             self.a = d["a"]
             self.value = univ.rep(d["a"], k)
-        elif self.c in ("dict", "cmap"):
+        elif self.c in ("dict", "cmap", "defaultdict"):
             self.keys = [Node(x, k) for x in d["ks"]]
             self.vals = [Node(x, k) for x in d["vs"]]
         else:
@@ -136,9 +136,9 @@ class Node:
         c = self.c
         if c == "atom":
             return self.value
-        if c in ("dict", "cmap"):
+        if c in ("dict", "cmap", "defaultdict"):
             d = {kk.make(): vv.make() for kk, vv in zip(self.keys, self.vals)}
-            return d if c == "dict" else CMap(d)
+            return d if c == "dict" else collections.defaultdict(None, d) if c == "defaultdict" else CMap(d)
         xs = [ch.make() for ch in self.children]
         if c == "list":
             return xs
@@ -173,7 +173,7 @@ class Node:
         """children in abstract order (for dict-likes: the keys)"""
         if self.c == "atom":
             return []
-        if self.c in ("dict", "cmap"):
+        if self.c in ("dict", "cmap", "defaultdict"):
             return self.keys
         return self.children
 
